@@ -221,10 +221,20 @@ def run(out: Outcome) -> None:
     lines, expect = [], []
     for i in range(30 if thorough else 8):
         n, m = rng.randint(3, 25), rng.randint(3, 25)
+        if i in (1, 2, 3):      # the smallest samples the property admits ("size >= 2 (>= the test's own minimum)"): two values on one side, on the other, on both
+            n, m = [(2, rng.randint(2, 9)), (rng.randint(3, 9), 2), (2, 2)][i - 1]
         k1, k2 = rng.choice(["cont", "shift", "tied"]), rng.choice(["cont", "shift", "tied"])
         if i == 0:
             check_numeric(out, rng, [1.0, 2.0, 3.0], [1.5, 2.5, 3.5], lines, expect)
-        check_numeric(out, rng, sample(rng, n, k1), sample(rng, m, k2), lines, expect)
+        a_, b_ = sample(rng, n, k1), sample(rng, m, k2)
+        try:
+            check_numeric(out, rng, a_, b_, lines, expect)
+        except Exception as e:  # noqa: BLE001
+            # a detector that raises on a pair of finite samples of admissible sizes does not "return the statistic and p-value of the named test"
+            import traceback
+            where = [f.name for f in traceback.extract_tb(e.__traceback__) if "frouros" in f.filename][-1:]
+            out.violation(f"a two-sample detector raised {type(e).__name__}: {e} on finite samples of sizes {n} and {m}" + (f" (in {where[0]})" if where else ""),
+                          {"ref": a_, "test": b_, "kind": "exception"})
     for _ in range(60 if thorough else 20):
         check_chi2(out, rng, lines, expect)
     # KF-C12-2: Kuiper on nearly identical samples of 290+ values (second branch of the series at N >= 144.7)
